@@ -32,17 +32,31 @@ OddQueries == { <<"i1", TRUE, FALSE, 104>> }
 \* ---- export worlds (edge cover): small, so that every transition can be replayed
 XMsgs == { <<E("p1", 1)>>, <<E("p1", 16)>> }
 XQueries == { <<"i1", TRUE, FALSE, 104>> }
-\* ---- simulation world: the code's own constants, three neighbours, three prefixes
+\* ---- simulation world: three neighbours, three prefixes, both own addresses, medium timer constants
 SimNbrs == {"a", "b", "c"}
 SimSelfs == {"s1", "s2"}
 SimPrefixes == {"p1", "p2", "p3"}
-SimMetrics == {0, 1, 2, 7, 14, 15, 16, 17}
-SimEnt == [k : SimPrefixes \cup SimNbrs \cup SimSelfs, m : SimMetrics, tag : {0}, af : {"inet"}]
-          \cup [k : SimPrefixes, m : {1}, tag : {0, 3}, af : {"inet", "other"}]
-SimMsgs == {<<>>} \cup {<<e>> : e \in SimEnt} \cup {<<e1, e2>> : e1, e2 \in SimEnt} \cup {<<E("p1", 1), E("p2", 1), E("p3", 1)>>}
+SimMsgs == { <<E("p1", 1)>>, <<E("p1", 2)>>, <<E("p2", 1)>>, <<E("p2", 15)>>, <<E("p3", 16)>>, <<E("p1", 16)>>, <<E("p2", 0)>>,
+             <<E("p3", 17)>>, <<E("a", 1)>>, <<E("c", 0)>>, <<E("s1", 2)>>, <<E("p1", 1), E("p2", 2)>>, <<E("p1", 15), E("p1", 1)>>,
+             <<E("p1", 3), E("p2", 3), E("p3", 3)>>, <<[k |-> "p1", m |-> 1, tag |-> 3, af |-> "inet"], E("p3", 1)>>,
+             <<[k |-> "p2", m |-> 1, tag |-> 0, af |-> "other"]>>, <<>> }
 SimStatic == { <<"p1", "a", 1>>, <<"p2", "c", 3>>, <<"p3", "b", 15>> }
 SimLocal == { <<"p3", 1>>, <<"p2", 5>> }
 SimConn == { <<"p1", "i1">>, <<"p3", "i2">> }
-SimQueries == {<<i, f, so, mtu>> : i \in Ifs, f \in BOOLEAN, so \in BOOLEAN, mtu \in {64, 84, 104, 124, 564, 1400}}
-SimDts == {1, 2, 5, 12, 13, 25, 45, 70}
+SimQueries == { <<"i1", TRUE, FALSE, 64>>, <<"i2", TRUE, FALSE, 84>>, <<"i1", FALSE, FALSE, 104>>, <<"i2", TRUE, TRUE, 124>>,
+                <<"i1", TRUE, FALSE, 1400>>, <<"i2", FALSE, TRUE, 564>> }
+SimDts == {1, 2, 3, 4, 6}
+\* Next for -simulate runs.  TLC's simulator first picks one of the syntactic sub-actions of the next-state
+\* relation (it splits every \E over a CONSTANT set into one sub-action per value) and then one of its
+\* successors: with Next as it stands 50 of 80 sub-actions are responses and time hardly ever passes.  A
+\* state-level bound is not split, so every kind of step is ONE sub-action here; the behaviours are the same.
+Lift(S) == IF rt.pend \in BOOLEAN THEN S ELSE {}
+One == Lift({0})
+SimResponse == \E n \in Lift(Nbrs) : \E ents \in Msgs : \E i \in IfChoices(n) : Response(n, i, ents)
+SimTick == \E d \in Lift(Dts) : Tick(d)
+SimNext == \/ SimResponse \/ SimResponse
+           \/ \E z \in One : (NextRequest \/ NextQuery \/ Periodic)
+           \/ \E z \in One : NextConfig
+           \/ NextTimeout \/ NextGarbage \/ Fire
+           \/ SimTick \/ SimTick \/ SimTick
 =============================================================================
